@@ -266,6 +266,14 @@ func (w *inotify) register(path string, flags uint32, recurse bool) error {
 			return nil, err
 		}
 
+		// The path has come to refer to a different file (it was deleted
+		// and recreated while the old file is still alive through a hard
+		// link or an open descriptor): release the watch on the old file,
+		// as nothing refers to it anymore.
+		if existing != nil && existing.wd != uint32(wd) {
+			unix.InotifyRmWatch(w.fd, existing.wd)
+		}
+
 		if e, ok := w.watches.wd[uint32(wd)]; ok {
 			return e, nil
 		}
